@@ -6,7 +6,9 @@ use mqtt::packet::{v5_0, Property, Qos, SubEntry, SubOpts};
 use mqtt::result_code::*;
 
 pub const IDS: [u64; 27] = [1, 2, 3, 8, 9, 11, 17, 18, 19, 21, 22, 23, 24, 25, 26, 28, 31, 33, 34, 35, 36, 37, 38, 39, 40, 41, 42];
-pub const LOCS: [u64; 14] = [1, 2, 3, 4, 5, 6, 7, 8, 9, 10, 11, 14, 15, 16];
+pub const LOCS: [u64; 28] = [1, 2, 3, 4, 5, 6, 7, 8, 9, 10, 11, 14, 15, 16, 101, 102, 103, 104, 105, 106, 107, 108, 109, 110, 111, 114, 115, 116];
+// loc >= 100: the same location (loc % 100) on a second base packet: other flags, a failure reason code, more
+// entries (115 = AUTH with Continue authentication, which needs an Authentication Method)
 
 /// a valid sample of each property, through the library's constructors
 pub fn sample(id: u64) -> Property {
@@ -58,6 +60,36 @@ pub fn sample_bytes(id: u64) -> Vec<u8> {
 }
 
 pub fn build_with(loc: u64, props: Vec<Property>) -> bool {
+    if loc >= 100 {
+        return match loc - 100 {
+            1 => v5_0::Connect::builder().client_id("cid2").unwrap().clean_start(true).keep_alive(60).user_name("u").unwrap().password(b"pw".to_vec()).unwrap().props(props).build().is_ok(),
+            16 => v5_0::Connect::builder()
+                .client_id("c")
+                .unwrap()
+                .will_message("w/t", b"pp".to_vec(), Qos::AtLeastOnce, true)
+                .unwrap()
+                .will_props(props)
+                .build()
+                .is_ok(),
+            2 => v5_0::Connack::builder().session_present(false).reason_code(ConnectReasonCode::NotAuthorized).props(props).build().is_ok(),
+            3 => v5_0::Publish::builder().topic_name("t").unwrap().qos(Qos::AtLeastOnce).packet_id(1u16).retain(true).payload(b"xy".to_vec()).props(props).build().is_ok(),
+            4 => v5_0::Puback::builder().packet_id(2u16).reason_code(PubackReasonCode::UnspecifiedError).props(props).build().is_ok(),
+            5 => v5_0::Pubrec::builder().packet_id(2u16).reason_code(PubrecReasonCode::UnspecifiedError).props(props).build().is_ok(),
+            6 => v5_0::Pubrel::builder().packet_id(2u16).reason_code(PubrelReasonCode::PacketIdentifierNotFound).props(props).build().is_ok(),
+            7 => v5_0::Pubcomp::builder().packet_id(2u16).reason_code(PubcompReasonCode::PacketIdentifierNotFound).props(props).build().is_ok(),
+            8 => v5_0::Subscribe::builder()
+                .packet_id(2u16)
+                .entries(vec![SubEntry::new("a", SubOpts::default()).unwrap(), SubEntry::new("b/#", SubOpts::default().set_qos(Qos::AtLeastOnce)).unwrap()])
+                .props(props)
+                .build()
+                .is_ok(),
+            9 => v5_0::Suback::builder().packet_id(2u16).reason_codes(vec![SubackReasonCode::UnspecifiedError, SubackReasonCode::GrantedQos1]).props(props).build().is_ok(),
+            10 => v5_0::Unsubscribe::builder().packet_id(2u16).entries(vec!["a", "b/#"]).unwrap().props(props).build().is_ok(),
+            11 => v5_0::Unsuback::builder().packet_id(2u16).reason_codes(vec![UnsubackReasonCode::NoSubscriptionExisted, UnsubackReasonCode::Success]).props(props).build().is_ok(),
+            14 => v5_0::Disconnect::builder().reason_code(DisconnectReasonCode::MalformedPacket).props(props).build().is_ok(),
+            _ => v5_0::Auth::builder().reason_code(AuthReasonCode::ContinueAuthentication).props(props).build().is_ok(),
+        };
+    }
     match loc {
         1 => v5_0::Connect::builder().client_id("c").unwrap().props(props).build().is_ok(),
         16 => v5_0::Connect::builder()
@@ -113,6 +145,32 @@ pub fn body_with(loc: u64, pb: &[u8]) -> Vec<u8> {
     let mut props = vbi(pb.len());
     props.extend_from_slice(pb);
     let mut b: Vec<u8> = Vec::new();
+    if loc >= 100 {
+        match loc - 100 {
+            1 => {
+                b.extend_from_slice(&[0, 4, b'M', b'Q', b'T', b'T', 5, 0xC2, 0, 60]);
+                b.extend_from_slice(&props);
+                b.extend_from_slice(&[0, 4, b'c', b'i', b'd', b'2', 0, 1, b'u', 0, 2, b'p', b'w']);
+            }
+            16 => {
+                b.extend_from_slice(&[0, 4, b'M', b'Q', b'T', b'T', 5, 0x2E, 0, 0, 0]); // will flag, will QoS 1, will retain, clean start
+                b.extend_from_slice(&[0, 1, b'c']);
+                b.extend_from_slice(&props);
+                b.extend_from_slice(&[0, 3, b'w', b'/', b't', 0, 2, b'p', b'p']);
+            }
+            2 => { b.extend_from_slice(&[0, 0x87]); b.extend_from_slice(&props); }
+            3 => { b.extend_from_slice(&[0, 1, b't', 0, 1]); b.extend_from_slice(&props); b.extend_from_slice(b"xy"); }
+            4 | 5 => { b.extend_from_slice(&[0, 2, 0x80]); b.extend_from_slice(&props); }
+            6 | 7 => { b.extend_from_slice(&[0, 2, 0x92]); b.extend_from_slice(&props); }
+            8 => { b.extend_from_slice(&[0, 2]); b.extend_from_slice(&props); b.extend_from_slice(&[0, 1, b'a', 0, 0, 3, b'b', b'/', b'#', 1]); }
+            9 => { b.extend_from_slice(&[0, 2]); b.extend_from_slice(&props); b.extend_from_slice(&[0x80, 1]); }
+            10 => { b.extend_from_slice(&[0, 2]); b.extend_from_slice(&props); b.extend_from_slice(&[0, 1, b'a', 0, 3, b'b', b'/', b'#']); }
+            11 => { b.extend_from_slice(&[0, 2]); b.extend_from_slice(&props); b.extend_from_slice(&[0x11, 0]); }
+            14 => { b.push(0x81); b.extend_from_slice(&props); }
+            _ => { b.push(0x18); b.extend_from_slice(&props); }
+        }
+        return b;
+    }
     match loc {
         1 => {
             b.extend_from_slice(&[0, 4, b'M', b'Q', b'T', b'T', 5, 2, 0, 0]);
@@ -162,10 +220,11 @@ pub fn body_with(loc: u64, pb: &[u8]) -> Vec<u8> {
 
 pub fn parse_with(loc: u64, pb: &[u8]) -> bool {
     let body = body_with(loc, pb);
-    let r = std::panic::catch_unwind(|| match loc {
+    let fl: u8 = if loc == 103 { 3 } else { 0 };
+    let r = std::panic::catch_unwind(|| match loc % 100 {
         1 | 16 => v5_0::Connect::parse(&body).is_ok(),
         2 => v5_0::Connack::parse(&body).is_ok(),
-        3 => v5_0::Publish::parse(0, body.clone().into()).is_ok(),
+        3 => v5_0::Publish::parse(fl, body.clone().into()).is_ok(),
         4 => v5_0::Puback::parse(&body).is_ok(),
         5 => v5_0::Pubrec::parse(&body).is_ok(),
         6 => v5_0::Pubrel::parse(&body).is_ok(),
@@ -182,9 +241,9 @@ pub fn parse_with(loc: u64, pb: &[u8]) -> bool {
 
 /// the list of ids a cell stands for: Authentication Data is always accompanied by one
 /// Authentication Method (it is an error without one wherever it is allowed)
-pub fn cell_ids(id: u64, count: u64) -> Vec<u64> {
+pub fn cell_ids(loc: u64, id: u64, count: u64) -> Vec<u64> {
     let mut v = Vec::new();
-    if id == 22 {
+    if id == 22 || (loc == 115 && id != 21) {
         v.push(21);
     }
     for _ in 0..count {
@@ -250,7 +309,7 @@ pub fn write_props_v(path: &str) {
     for &loc in &LOCS {
         for &id in &IDS {
             for count in 1..=2u64 {
-                let ids = cell_ids(id, count);
+                let ids = cell_ids(loc, id, count);
                 let props: Vec<Property> = ids.iter().map(|i| sample(*i)).collect();
                 let b = std::panic::catch_unwind(|| build_with(loc, props)).unwrap_or(false);
                 let mut pb = Vec::new();
@@ -294,7 +353,7 @@ pub fn gen_lists(seed: u64, n: usize, out: &mut Vec<String>) -> (u64, u64) {
         let loc = *rng.pick(&LOCS);
         let len = rng.below(7);
         // the legal ids of this location, learnt from single-property builds (only used as a generator bias)
-        let legal: Vec<u64> = IDS.iter().copied().filter(|i| build_with(loc, cell_ids(*i, 1).iter().map(|x| sample(*x)).collect())).collect();
+        let legal: Vec<u64> = IDS.iter().copied().filter(|i| build_with(loc, cell_ids(loc, *i, 1).iter().map(|x| sample(*x)).collect())).collect();
         let mut ids: Vec<u64> = Vec::new();
         for _ in 0..len {
             let id = if !legal.is_empty() && rng.chance(5, 6) { *rng.pick(&legal) } else { *rng.pick(&IDS) };
